@@ -45,7 +45,7 @@ def cargo_env(extra_rustflags="", target_dir=None):
     return env
 
 
-def build(pkg, bin_name, flavor="native", quiet=True):
+def build(pkg, bin_name, flavor="native", quiet=True, features=None):
     """Build one worker binary against /repo's current working tree. Returns its path."""
     t0 = time.time()
     if flavor == "native":
@@ -62,6 +62,8 @@ def build(pkg, bin_name, flavor="native", quiet=True):
         out = os.path.join(env["CARGO_TARGET_DIR"], "x86_64-unknown-linux-gnu", "release", bin_name)
     else:
         raise Broken(f"unknown flavor {flavor}")
+    if features:
+        cmd += ["--features", features]
     p = subprocess.run(cmd, cwd=HARNESS, env=env, stdout=subprocess.PIPE, stderr=subprocess.STDOUT, text=True)
     if p.returncode != 0:
         tail = "\n".join(p.stdout.splitlines()[-60:])
@@ -533,10 +535,10 @@ def simple_check(prop, pkg, bin_name, tier, seed, scratch, t0, level, rule, assu
                   extra_cov=extra_cov, exhaustive=exhaustive)
 
 
-def generic_replay(rp, scratch, pkg):
+def generic_replay(rp, scratch, pkg, features=None):
     """Re-execute exactly the case named in a replay file and print what it reports."""
     r = rp["replay"]
-    binpath = build(pkg, r["bin"])
+    binpath = build(pkg, r["bin"], features=features)
     j = os.path.join(scratch, "replay.jsonl")
     cmd = [binpath, "--tier", r["tier"], "--seed", str(r["seed"]), "--only", str(r["only"]), "--out", j, "--scratch", scratch] + list(r.get("args") or [])
     p = subprocess.run(cmd, cwd=scratch, stdout=subprocess.DEVNULL, stderr=subprocess.PIPE, text=True)
